@@ -1,0 +1,31 @@
+//go:build verif
+
+package ingress
+
+import (
+	networking "k8s.io/api/networking/v1"
+
+	"github.com/jcmoraisjr/haproxy-ingress/pkg/converters/ingress/annotations"
+	convtypes "github.com/jcmoraisjr/haproxy-ingress/pkg/converters/types"
+)
+
+// VerifSortIngress runs sortIngress on the list.
+func VerifSortIngress(ingress []*networking.Ingress) { sortIngress(ingress) }
+
+// VerifReadConfigKeys runs readConfigKeys of a converter configured with the
+// given annotation prefixes.
+func VerifReadConfigKeys(prefixes []string, ann map[string]string) map[string]string {
+	c := &converter{
+		options: &convtypes.ConverterOptions{AnnotationPrefix: prefixes},
+		logger:  verifNoLog{},
+	}
+	return c.readConfigKeys(&annotations.Source{Type: convtypes.ResourceIngress}, ann)
+}
+
+type verifNoLog struct{}
+
+func (verifNoLog) InfoV(v int, msg string, args ...interface{}) {}
+func (verifNoLog) Info(msg string, args ...interface{})         {}
+func (verifNoLog) Warn(msg string, args ...interface{})         {}
+func (verifNoLog) Error(msg string, args ...interface{})        {}
+func (verifNoLog) Fatal(msg string, args ...interface{})        {}
